@@ -94,13 +94,21 @@ func e1GateOne(p *Prog, imp types.Importer) {
 		p.Reject, p.GateErr = true, "syntax: "+err.Error()
 		return
 	}
+	files := []*ast.File{f}
+	if p.Mode["interop"] != "" {
+		f2, err := parser.ParseFile(fset, "interop.go", strings.Replace(interopSrc, "package main", "package p", 1), 0)
+		if err != nil {
+			panic(err)
+		}
+		files = append(files, f2)
+	}
 	var first error
 	conf := types.Config{GoVersion: "go1.18", Importer: imp, Error: func(e error) {
 		if first == nil {
 			first = e
 		}
 	}}
-	conf.Check("p", fset, []*ast.File{f}, nil)
+	conf.Check("p", fset, files, nil)
 	if first != nil {
 		p.Reject, p.GateErr = true, first.Error()
 	}
@@ -243,6 +251,7 @@ func refWrite(dir string, progs []*Prog, skip map[int]bool) map[string][]lineSpa
 	os.WriteFile(filepath.Join(dir, "go.mod"), []byte("module ref\n\ngo 1.18\n"), 0o644)
 	os.WriteFile(filepath.Join(dir, "tr", "tr.go"), []byte(tr.Source), 0o644)
 	os.WriteFile(filepath.Join(dir, "main.go"), []byte(refMainTmpl), 0o644)
+	os.WriteFile(filepath.Join(dir, "interop.go"), []byte(interopSrc), 0o644)
 	spans := map[string][]lineSpan{}
 	// group programs by import set so each file has exactly the imports its programs use
 	const perFile = 48
@@ -890,7 +899,7 @@ func raceParse(prefix string) (reports []raceReport, blocks int) {
 			}
 			blocks++
 			var rep raceReport
-			rep.Text = fw.Clip(blk, 4000)
+			rep.Text = fw.Clip(blk, 30000)
 			// the two accesses: first frame under "Write at"/"Read at" and under "Previous write/read at"
 			parts := regexp.MustCompile(`(?m)^(Write|Read|Previous write|Previous read|Previous atomic [a-z]+|Atomic [a-z]+) at`).Split(blk, -1)
 			var tops []string
